@@ -23,7 +23,7 @@ Not decided: equality of served data with block contents for all blocks (values)
 import re
 
 from facts import short_name
-from kinds import (k1_callers, k1_constructors, bool_payload_edges, comparisons, result_blocks)
+from kinds import (error_cut, for_loops, k1_callers, k1_constructors, bool_payload_edges, comparisons, result_blocks)
 
 CRATES = ["astria_core.lib", "astria_sequencer.lib", "astria_conductor.lib",
           "astria_sequencer_relayer.lib", "astria_merkle.lib"]
@@ -182,6 +182,46 @@ def r1(prog, rep):
                   f"reconstructed from the rollup data", body.describe())
 
 
+def r1_every_served_entry_audited(prog, rep):
+    """FilteredSequencerBlock::try_from_raw accepts a *subset* of the block's rollups: each served
+    entry must be audited against the header's rollup-transactions root.  The audit loop has to
+    range over the very map that is accepted (not over the committed id list: an entry for an id
+    that is not in the list would never be audited) and every iteration has to pass the audit."""
+    fn = BL + "FilteredSequencerBlock::try_from_raw"
+    b = prog.main_body(fn)
+    aud = [c for c in b.calls if short_name(c.callee) == "do_rollup_transactions_match_root"]
+    rep.floor("R1", len(aud), 1, "per-rollup audit in FilteredSequencerBlock::try_from_raw")
+    acc = ""
+    for i, j, p_, rv, line in b.aggregates("adt", r"block::FilteredSequencerBlock$"):
+        acc = dict(zip(rv[5], [b.root(o) for o in rv[4]])).get("rollup_transactions", "")
+    loops = [(h, it) for h, it in for_loops(b)
+             if any(a.bb in b.reachable(h.target or -1) for a in aud)]
+    ok = bool(acc) and bool(loops) and all(
+        it.split("|")[0] in (f"into_iter(values({acc}))", f"into_iter(iter({acc}))",
+                             f"into_iter({acc})", f"into_iter(values({acc}~mut))") for h, it in loops)
+    rep.check(ok, "R1", "filtered:audit-ranges-over-accepted-map",
+              f"the per-rollup audit iterates `{[it[:80] for h, it in loops]}`, not the map of "
+              f"served rollup transactions that is accepted (`{acc[:80]}`): an entry outside the "
+              "iterated set is accepted unaudited", b.describe())
+    for a in aud:
+        be = bool_payload_edges(b, a)
+        good = be is not None
+        if good:
+            for h, it in loops:
+                for s_ in b.succ[h.bb]:
+                    # from the loop body the head is not reachable again without the audit's
+                    # true edge (and without an error exit)
+                    e, bl = error_cut(b)
+                    cut = set(e) | set(be[0])
+                    oe = b.outcome_edges(h)
+                    for (u, v) in (oe.get("ok") or []):
+                        if h.bb in b.reachable(v, removed_edges=cut, removed_blocks=set(bl)):
+                            good = False
+        rep.check(good, "R1", "filtered:every-iteration-audited",
+                  "an iteration of the audit loop can complete without the entry having passed "
+                  "do_rollup_transactions_match_root (early `continue`)", a.where())
+
+
 def sorted_before_tree(prog, rep, rule, fns):
     """In each of `fns` every Merkle tree derivation is dominated by a sort of the rollup map by
     key, and nothing is inserted into the map between that sort and the derivation (deposits of
@@ -211,6 +251,7 @@ def sorted_before_tree(prog, rep, rule, fns):
 
 
 def r2(prog, rep):
+    r1_every_served_entry_audited(prog, rep)
     sorted_before_tree(prog, rep, "R2", (
         BL + "SequencerBlockBuilder::try_build",
         "astria_sequencer::proposal::commitment::generate_rollup_datas_commitment"))
